@@ -72,8 +72,44 @@ DefaultsInEffect(eff) ==
 \* ifaces: the interfaces that must be mocked (declared with an interface literal whose type set is a method
 \* set: plain, empty, generic, embedding-only, methods + embedding); may: interfaces the statement leaves open
 \* (aliases, defined types over a named interface, constraint interfaces).  Nothing else may be mocked.
+\* Source-file classes of a Go package.  "all interfaces of the named package" are the interfaces declared in
+\* the files the toolchain compiles into the package on this host -- whoever wrote the file (a person or a code
+\* generator), whatever it is called, however many there are.  status:
+\*   "in"      compiled into the package: hand-written, carrying a `// Code generated ... DO NOT EDIT.` header
+\*             (before or after the package clause), a satisfied //go:build line or GOOS file-name suffix,
+\*             further files, a file with non-interface types only, a doc.go
+\*   "either"  left open by the statement: a _test.go file of the package itself, a file of the external
+\*             <pkg>_test package in the same directory, a file excluded on this host (unsatisfied //go:build tag,
+\*             foreign GOOS suffix, `//go:build ignore` with another package clause)
+\* ifaces: the method-set interfaces the file declares; other: the non-interface types it declares.  The names
+\* are disjoint between classes, so a package made of any subset of them compiles.
+FC(st, ifs, oth) == [status |-> st, ifaces |-> ifs, other |-> oth]
+FileClass == [f \in {"plain", "gen", "genmid", "intest", "exttest", "tagon", "tagoff", "suffixon", "suffixoff",
+                     "ignore", "types", "doc", "more1", "more2"} |->
+  CASE f = "plain"     -> FC("in", {"P", "pu"}, {"PS"})
+    [] f = "gen"       -> FC("in", {"GenClient", "GenServer", "genUnsafe"}, {"GenReq"})
+    [] f = "genmid"    -> FC("in", {"GenMid"}, {})
+    [] f = "intest"    -> FC("either", {"InTest"}, {})
+    [] f = "exttest"   -> FC("either", {"ExtTest"}, {})
+    [] f = "tagon"     -> FC("in", {"TagOn"}, {})
+    [] f = "tagoff"    -> FC("either", {"TagOff"}, {})
+    [] f = "suffixon"  -> FC("in", {"SuffixOn"}, {})
+    [] f = "suffixoff" -> FC("either", {"SuffixOff"}, {})
+    [] f = "ignore"    -> FC("either", {"Ignored"}, {})
+    [] f = "types"     -> FC("in", {}, {"TS", "TF", "TI"})
+    [] f = "doc"       -> FC("in", {}, {})
+    [] f = "more1"     -> FC("in", {"M1", "M1b"}, {})
+    [] f = "more2"     -> FC("in", {"M2"}, {"M2S"})]
+FileClasses == DOMAIN FileClass
+\* a set of files is a Go package when the toolchain compiles at least one of them
+FilesArePkg(files) == \E f \in files : FileClass[f].status = "in"
+FilesIfaces(files) == UNION {FileClass[f].ifaces : f \in {g \in files : FileClass[g].status = "in"}}
+FilesMay(files) == UNION {FileClass[f].ifaces : f \in {g \in files : FileClass[g].status = "either"}}
+
 RunExpect(by, isPkg, ifaces, may, alreadyMocked) ==
   IF by = None \/ ~isPkg \/ alreadyMocked THEN [judged |-> FALSE, ok |-> FALSE, mocked |-> {}, may |-> {}]
   ELSE [judged |-> TRUE, ok |-> TRUE, mocked |-> ifaces, may |-> may]
 MockedOK(e, got) == e.mocked \subseteq got /\ got \subseteq e.mocked \cup e.may
+\* ... each of them once: mocks -- the sequence of interface names, one entry per mock written
+MockedOnce(mocks) == \A i, j \in 1..Len(mocks) : mocks[i] = mocks[j] => i = j
 =============================================================================
